@@ -1047,9 +1047,9 @@ def sizes_for(tier, rng):
         return {"strands": 4, "nt": 24, "doms": 5}
     if r < 0.9:
         return {"strands": 8, "nt": 40, "doms": 8}
-    if r < 0.985:
+    if r < 0.99:
         return {"strands": 14, "nt": 70, "doms": 12}
-    if r < 0.998:
+    if r < 0.999:
         return {"strands": 25, "nt": 120, "doms": 20}
     return {"strands": 40, "nt": 200, "doms": 30}
 
